@@ -59,7 +59,7 @@ func searchRoots(c *Ctx) []*ssa.Function {
 func runC18(c *Ctx) {
 	r := c.R
 	r.Rule("R18-fork", "analysis runs on a fork: the board handed to the launcher and the board handed out by Engine.Board are Fork() results; the engine's own board is otherwise only used for its methods inside locked engine methods", 2)
-	r.Rule("R18-sources", "no code reachable from a search, evaluator or exploration reads the clock, the global random source or the environment; every rand.New is seeded from an explicit parameter; the engine builds its noise generator from (noise option, seed)", 3)
+	r.Rule("R18-sources", "no code reachable from a search, evaluator or exploration reads the clock, the global random source or the environment; every rand.New is seeded from an explicit parameter; the engine builds its noise generator from (noise option, seed), afresh on every reset", 5)
 	r.Rule("R18-maporder", "no order-sensitive iteration over a map in code reachable from searches (two reviewed, commutative exceptions are frozen by name)", 1)
 	r.Rule("R18-hashfree", "repetition decisions use the position hash only as a pre-filter of the exact comparison, so results do not depend on the hash seed", 1)
 	r.Rule("R18-state", "searches, evaluators and explorations write no package-level variable and no state that outlives the call, except per-search run objects, the exclusive board, the table - and the one frozen evaluator (sargon.Points) whose state is re-initialised by its wrapper before every search", 3)
@@ -82,6 +82,9 @@ func runC18(c *Ctx) {
 		posEq, parityEq, detail, where := recountGuards(c, g)
 		r.Check(posEq && parityEq, "R18-hashfree", "the repetition count is decided by exact position equality", where, "", detail)
 	})
+	// a reset engine must not carry over the noise generator (or table) earlier searches consumed
+	c.guard("R18-sources", func() { r.WithAlias("R10-engine", "R18-sources", func() { c10Engine(c) }) })
+
 }
 
 func c18Fork(c *Ctx) {
@@ -244,14 +247,16 @@ func c18Sources(c *Ctx, reach map[*ssa.Function][]*ssa.Function) {
 	if reset := c.find("pkg/engine", "Engine", "Reset"); reset != nil {
 		good := false
 		detail := ""
-		for _, b := range reset.Blocks {
-			for _, ins := range b.Instrs {
-				if call, ok := ins.(*ssa.Call); ok && call.Call.StaticCallee() != nil && call.Call.StaticCallee().Name() == "NewRandom" {
-					a0, a1 := pathExpr(call.Call.Args[0]), pathExpr(call.Call.Args[1])
-					good = a0 == "e.opts.Noise" && a1 == "e.seed"
-					detail = "NewRandom(" + a0 + "," + a1 + ")"
-				}
+		for _, ev := range flatten(reset, func(ins ssa.Instruction, fr *flatFrame) (string, *types.Var, ssa.Value) {
+			if call, ok := ins.(*ssa.Call); ok && call.Call.StaticCallee() != nil && call.Call.StaticCallee().Name() == "NewRandom" {
+				return "newrandom", nil, call
 			}
+			return "", nil, nil
+		}) {
+			call := ev.Val.(*ssa.Call)
+			a0, a1 := pathExpr(ev.frame.resolve(call.Call.Args[0])), pathExpr(ev.frame.resolve(call.Call.Args[1]))
+			good = a0 == "e.opts.Noise" && a1 == "e.seed"
+			detail = "NewRandom(" + a0 + "," + a1 + ")"
 		}
 		r.Check(good, "R18-sources", "the engine's noise generator is built from the noise option and the engine seed", c.pos(reset.Pos()), "", detail)
 	}
